@@ -1,24 +1,25 @@
 package main
 
 import (
+	"encoding/json"
 	"fmt"
 	"os"
-	"runtime/pprof"
-	"time"
 
 	"verifharness/props/c17"
 )
 
+// usage: dbg '<json program>'
 func main() {
-	f, _ := os.Create("/tmp/c17dbg/cpu.prof")
-	pprof.StartCPUProfile(f)
-	defer pprof.StopCPUProfile()
-	cfg := c17.Config{Variant: "owned", ReqSlot: 2, Unique: false, Balance: true, KeyKind: "func"}
-	cases := c17.ExhCases(cfg, 3, 0, 5)
-	t := time.Now()
-	n := 0
-	for i := range cases {
-		n += c17.RunExh("C17", cases[i], nil).Sequences
+	var p c17.Program
+	if err := json.Unmarshal([]byte(os.Args[1]), &p); err != nil {
+		panic(err)
 	}
-	fmt.Println("seqs", n, time.Since(t), time.Since(t)/time.Duration(n))
+	p.WalkEvery = 1
+	res := c17.ExecTrace("C17", &p, nil)
+	if res.Fail != nil {
+		b, _ := json.MarshalIndent(res.Fail, "", " ")
+		fmt.Println(string(b))
+		return
+	}
+	fmt.Println("passed", res.OpsDone, c17.LastDump)
 }
